@@ -5,6 +5,6 @@ CONSTANTS
   MaxSteps = 5
   MaxRuns = 2
   EmitLen = 0
-INVARIANTS ColumnsOK OncePerRun MultiplesOnly NoGap RunAveOK RunAveComplete AcfOK AcfOnce Wit
-POSTCONDITION WitPost
+INVARIANTS ColumnsOK OncePerRun MultiplesOnly NoGap RunAveOK RunAveComplete AcfOK AcfOnce
+\* vacuity: on
 CHECK_DEADLOCK FALSE
